@@ -114,4 +114,104 @@ theorem arange_zero_getElem? (n i : Nat) (h : i < n) : (arange 0 n)[i]? = some i
   unfold arange
   simp [h]
 
+theorem setItem_append (pre post : List Int) (x v : Int) :
+    setItem (pre ++ x :: post) pre.length v = .ok (pre ++ v :: post) := by
+  unfold setItem
+  rw [if_pos (by simp)]
+  simp
+
+/-! ### per-frame counts -/
+
+theorem match_len_eq (w : Rat) (c : Bool) (r e : List Rat) :
+    (if c = true then match_events_mod_len r e w else match_events_len r e w) = frameCount w c r e := by
+  cases c <;> rfl
+
+theorem numTruePositives_nil_right (w : Rat) (c : Bool) : ∀ rf : Frames,
+    numTruePositives w c rf [] = List.replicate rf.length 0
+  | [] => rfl
+  | _ :: rs => by simp only [numTruePositives, numTruePositives_nil_right w c rs, List.length_cons, List.replicate_succ]
+
+/-- the hand model's counts: one per zipped pair of frames, zeros behind -/
+theorem numTruePositives_shape (w : Rat) (c : Bool) : ∀ (rf ef : Frames),
+    natsToInts (numTruePositives w c rf ef) =
+      (List.zip rf ef).map (fun p => ((frameCount w c p.1 p.2 : Nat) : Int)) ++
+        List.replicate (rf.length - (List.zip rf ef).length) 0
+  | [], _ => by simp [numTruePositives, natsToInts]
+  | r :: rs, [] => by
+      simp [numTruePositives_nil_right, natsToInts, List.replicate_succ]
+  | r :: rs, e :: es => by
+      have ih := numTruePositives_shape w c rs es
+      simp only [natsToInts] at ih
+      simp only [numTruePositives, natsToInts, List.map_cons, List.zip_cons_cons, List.length_cons, ih,
+        List.cons_append, Nat.add_sub_add_right]
+      rfl
+
+theorem numTruePositives_length (w : Rat) (c : Bool) : ∀ (rf ef : Frames),
+    (numTruePositives w c rf ef).length = rf.length
+  | [], _ => rfl
+  | _ :: rs, [] => by simp [numTruePositives, numTruePositives_length w c rs []]
+  | _ :: rs, _ :: es => by simp [numTruePositives, numTruePositives_length w c rs es]
+
+/-! ### resampling -/
+
+theorem nearestIdx_lt (ts : List Rat) (t : Rat) (h : ts ≠ []) : nearestIdx ts t < ts.length := by
+  unfold nearestIdx
+  have : 0 < ts.length := List.length_pos_iff.2 h
+  omega
+
+/-- the fill-value / nearest index of `interp1d_nearest` over `np.arange(0, n)` is the hand model's `resampleIdx` -/
+theorem interp1d_nearest_arange (ts : List Rat) (n : Nat) (tg : List Rat) (h : ts.length = n) (hne : ts ≠ []) :
+    interp1d_nearest ts (arange 0 n) n tg = .ok (tg.map (resampleIdx ts n)) := by
+  unfold interp1d_nearest
+  have hl : (arange 0 n).length = n := by simp [arange]
+  rw [if_neg (by rw [hl]; exact not_not.2 h)]
+  congr 1
+  apply List.map_congr_left
+  intro t _
+  unfold resampleIdx
+  have hi := arange_zero_getElem? n _ (h ▸ nearestIdx_lt ts t hne)
+  cases ts.head? <;> cases ts.getLast? <;> try rfl
+  dsimp only
+  split
+  · rfl
+  · rw [hi]; rfl
+
+theorem interp1d_nearest_len_error (ts : List Rat) (n : Nat) (tg : List Rat) (h : ts.length ≠ n) :
+    interp1d_nearest ts (arange 0 n) n tg = .error .valueError := by
+  unfold interp1d_nearest
+  have hl : (arange 0 n).length = n := by simp [arange]
+  rw [if_pos (by rw [hl]; exact h)]
+
+theorem resampleIdx_le_len (ts : List Rat) (n : Nat) (t : Rat) (h : ts.length = n) : resampleIdx ts n t ≤ n := by
+  unfold resampleIdx
+  split
+  · split
+    · exact Nat.le_refl _
+    · unfold nearestIdx; omega
+  · exact Nat.le_refl _
+
+theorem listGet_resampleFrame (ts : List Rat) (fs : Frames) (t : Rat) (h : ts.length = fs.length) :
+    listGet (fs ++ [[]]) (resampleIdx ts fs.length t) = .ok (resampleFrame ts fs t) := by
+  have hle := resampleIdx_le_len ts fs.length t h
+  have hlt : resampleIdx ts fs.length t < (fs ++ [[]]).length := by simp; omega
+  unfold listGet resampleFrame
+  rw [List.getElem?_eq_getElem hlt]
+
+theorem resample_of_len {ts : List Rat} {fs : Frames} (tg : List Rat) (h : ts.length = fs.length) :
+    resample ts fs tg = .ok (resampleCore ts fs tg) := by
+  unfold resample resampleCore
+  by_cases h1 : tg.isEmpty = true
+  · have : tg = [] := List.isEmpty_iff.1 h1
+    subst this
+    simp
+    rfl
+  · rw [if_neg h1]
+    by_cases h2 : ts.isEmpty = true
+    · rw [if_pos h2, if_pos h2]; rfl
+    · rw [if_neg h2, if_neg h2, if_neg (not_not.2 h)]; rfl
+
+theorem num_true_positives_chroma_lengths (w : Rat) (rf ef : Frames) :
+    (numTruePositives w true (midiToChroma rf) (midiToChroma ef)).length = rf.length := by
+  rw [numTruePositives_length]; simp [midiToChroma]
+
 end Mir.PyMP
